@@ -88,11 +88,18 @@ func DecodeRuleset(ruleset Ruleset, ctx *Ctx) (err error) {
 		return
 	}
 	_ = ruleset[n-1]
+	var lerr error
 	for i := 0; i < n; i++ {
 		if err = followRule(&ruleset[i], ctx); err != nil {
+			if err == ErrLBreakLoop {
+				// Lazy break lets the rest of the block work, the loop gets the signal afterwards.
+				lerr = err
+				continue
+			}
 			return
 		}
 	}
+	err = lerr
 	return
 }
 
